@@ -287,6 +287,38 @@ theorem feedAll_allClosed (m : MMachine σ α β) (cfg : Sources α) (evs : List
     rw [h2.1, h2.2.1, h2.2.2.1, h2.2.2.2, h1.1, h1.2.1, h1.2.2.1, h1.2.2.2]
     simp
 
+theorem feedAll_allClosed_st (m : MMachine σ α β) (cfg : Sources α) (evs : List (MEvent α)) (r : MSt σ α β)
+    (h : ∀ k, r.subs k = 0 ∨ r.sopen k = false) : (feedAll m cfg r evs).st = r.st := by
+  induction evs generalizing r with
+  | nil => rfl
+  | cons e es ih =>
+    have h1 := feed_allClosed m cfg r e h
+    have hst : (feed m cfg r e).st = r.st := by
+      unfold feed; split
+      · rfl
+      · rename_i h0
+        have : r.sopen e.1 = false := by
+          cases h e.1 with
+          | inl h2 => exact absurd h2 h0
+          | inr h2 => exact h2
+        simp [deliver, this]
+    have := ih (feed m cfg r e) (by intro j; rw [h1.1, h1.2.1]; exact h j)
+    simp only [feedAll, List.foldl_cons] at this ⊢
+    rw [this, hst]
+
+theorem booted_preserved (m : MMachine σ α β) : Preserved m (fun r => r.booted = true) where
+  st := fun _ _ h => h
+  emit := fun r n h => by
+    unfold MSt.emit; split
+    · split
+      · simp [h]
+      · exact h
+    · exact h
+  close := fun _ _ h => h
+  sub := fun _ _ _ h => h
+  drop := fun _ _ h => h
+  over := fun _ h => h
+
 theorem phasesAt_depth (m : MMachine σ α β) (cfg : Sources α) :
     phasesAt m cfg (depth cfg) = phases m cfg (phasesAt m cfg cfg.n) := rfl
 
